@@ -279,10 +279,10 @@ end
 
 /-- per-sample validation of the assumptions of Thm.stringify_valid (`NumTxt`, and the numeric
     read-back rd (fmt x) = x): the text the model emits is re-read by the Lean JSON reader -/
-def selfCheck (fuel : Nat) (v : SV) (r : Replacer) (sp : Space) : String :=
+def selfCheck (pj : SV → Str → Option SV) (fuel : Nat) (v : SV) (r : Replacer) (sp : Space) : String :=
   let gap := C11.gapOf sp
   if !gap.all isWS then "" else
-  match walk (mctxOf cv r) fuel 0 [] v with
+  match walk (mctxOf cv pj r) fuel 0 [] v with
   | .val g =>
     let g' := sortMaps g
     match Spec.jsonParse (marshal lib gap 0 g') with
@@ -290,13 +290,60 @@ def selfCheck (fuel : Nat) (v : SV) (r : Replacer) (sp : Space) : String :=
     | some t => if jvTok t == jvTok (expectOf g') then "" else "!reread"
   | _ => ""
 
-def handleStr (vt : String) (v : SV) (r : Replacer) (spArg : Option SV) : String :=
+/-! ### runtimes with `toJSON` on the built-in prototypes (tokens e3, e4, e5)
+
+    e3: String.prototype, Number.prototype and Boolean.prototype each have a method
+        toJSON = function(k){ log.push(<S|N|B> + ":" + k); return "h<S|N|B>:" + k }
+    e4: the same functions behind logging GETTERS (log.push("g<S|N|B>") at each read of toJSON)
+    e5: Object.prototype.toJSON = function(k){ log.push("O:" + k); return "hO:" + k }
+    The observation is the result followed by `#` and the log. -/
+
+def tagStr (tag : Nat) (key : Str) : SV := .str ([104, tag, 58] ++ key)       -- "h" tag ":" key
+
+/-- the class letter of a wrapper object -/
+def wrapClass : SV → Option Nat
+  | .boxNum _ | .wrapNum .. => some 78     -- N
+  | .boxStr _ | .wrapStr .. => some 83     -- S
+  | .boxBool _ => some 66                  -- B
+  | _ => none
+
+def pjOf (env : String) : SV → Str → Option SV :=
+  if env == "e3" || env == "e4" then fun v key => (wrapClass v).map fun t => tagStr t key
+  else if env == "e5" then fun v key => if isObjectKind v then some (tagStr 79 key) else none
+  else noProtoToJSON
+
+mutual
+/-- the log of the toJSON reads and calls in walk order (replacer absent): one visit per value reached -/
+partial def tjLog (env : String) (key : Str) (v0 : SV) : List Str :=
+  let v := viaGet v0
+  match v with
+  | .tojson r => tjDescend env r
+  | _ =>
+    if env == "e5" && isObjectKind v then [[79, 58] ++ key]
+    else match wrapClass v with
+      | some t => if env == "e3" || env == "e4" then (if env == "e4" then [[103, t]] else []) ++ [[t, 58] ++ key] else tjDescend env v
+      | none => tjDescend env v
+partial def tjDescend (env : String) (u : SV) : List Str :=
+  match u with
+  | .arr l => tjLogL env 0 l
+  | .obj m => tjLogM env m
+  | _ => []
+partial def tjLogL (env : String) (i : Nat) : SVs → List Str
+  | .nil => []
+  | .cons v t => tjLog env (decimalNat i) v ++ tjLogL env (i + 1) t
+partial def tjLogM (env : String) : SMs → List Str
+  | .nil => []
+  | .cons k v t => tjLog env k v ++ tjLogM env t
+end
+
+def handleStr (env : String) (vt : String) (v : SV) (r : Replacer) (spArg : Option SV) : String :=
   let fuel := fuelOf vt
+  let pj := pjOf env
   let msp := C11.spaceOf cv spArg
   let sp := Spec.spaceOf cv spArg
-  let m := C11.jsonStringify lib cv fuel v r msp
-  let s := Spec.jsonStringify cv fuel v r sp
-  let tree := Spec.serial (Spec.sctxOf cv r) fuel 0 [] v
+  let m := C11.jsonStringify lib cv pj fuel v r msp
+  let s := Spec.jsonStringify cv pj fuel v r sp
+  let tree := Spec.serial (Spec.sctxOf cv pj r) fuel 0 [] v
   let treeDev : List String := match tree with
     | .val t =>
       (if jvAny no1 (fun m => !sortedKeys m) t then ["str_key_order"] else []) ++
@@ -304,14 +351,18 @@ def handleStr (vt : String) (v : SV) (r : Replacer) (spArg : Option SV) : String
       (if jvAny (fun s => goStr s != s) no1 t then ["str_lone_surrogate"] else [])
     | _ => []
   let dev := treeDev ++ (if gapLone sp && !treeDev.contains "str_lone_surrogate" then ["str_lone_surrogate"] else [])
-  reply (outTok m ++ selfCheck fuel v r msp) (outTok s) (joinDev dev)
+  let logged := env == "e3" || env == "e4" || env == "e5"
+  let lg (o : Out) : String := match o with
+    | .typeError => ""
+    | _ => if logged then "#" ++ logTok (tjLog env [] v) else ""
+  reply (outTok m ++ lg m ++ selfCheck pj fuel v r msp) (outTok s ++ lg s) (joinDev dev)
 
 /-! ### runtimes whose Object.prototype holds an accessor / a read-only property named "a" and ""
 
     (tokens e1 / e2).  JSON creates its properties with [[DefineOwnProperty]], so such a runtime
     behaves like a pristine one: the token only selects the runtime on the harness side. -/
 
-def isEnv (t : String) : Bool := t == "e1" || t == "e2"
+def isEnv (t : String) : Bool := t == "e1" || t == "e2" || t == "e3" || t == "e4" || t == "e5"
 
 def tText? (t : String) : Option Str :=
   if t.startsWith "t:" then units? (String.ofList (t.toList.drop 2)) else none
@@ -335,11 +386,11 @@ def handle (ws : List String) : String :=
     | _, _ => "bad-op"
   | ["str", vt, rt, st] =>
     match sv? vt, replacer? rt, space? st with
-    | some v, some r, some sp => handleStr vt v r sp
+    | some v, some r, some sp => handleStr "" vt v r sp
     | _, _, _ => "bad-op"
   | ["str", vt, rt, st, e] =>
     match sv? vt, replacer? rt, space? st with
-    | some v, some r, some sp => if isEnv e then handleStr vt v r sp else "bad-op"
+    | some v, some r, some sp => if isEnv e then handleStr e vt v r sp else "bad-op"
     | _, _, _ => "bad-op"
   | _ => "bad-op"
 
